@@ -1354,12 +1354,32 @@ def make_builtins(ip):
     def minmax(is_min):
         def f(ip, args, kwargs):
             key = kwargs.get('key')
-            items = ip.iterate(args[0]) if len(args) == 1 else list(args)
+            if len(args) == 1 and isinstance(args[0], list) and any(isinstance(x, I.Guarded) for x in args[0]):
+                items = list(args[0])
+            else:
+                items = ip.iterate(args[0]) if len(args) == 1 else list(args)
             if not items:
                 if 'default' in kwargs:
                     return kwargs['default']
                 ip.raise_py('ValueError', 'arg is an empty sequence')
             kf = (lambda x: ip.call(key, [x], {})) if key is not None else (lambda x: x)
+            if any(isinstance(x, I.Guarded) for x in items):
+                # list built under if-merging: the extreme of the elements that are present, as
+                # a witness m with  m <= x (>= for max) for every present x  and  m == some
+                # present x.  Needs an element that is present unconditionally.
+                if key is not None or not any(not isinstance(x, I.Guarded) for x in items):
+                    raise Unsupported("min/max of a guarded list without an unconditional element")
+                m = ip.ctx.fresh_real('min' if is_min else 'max')
+                alts = []
+                for x in items:
+                    g, xv = (x.guard, x.value) if isinstance(x, I.Guarded) else (True, x)
+                    if isinstance(xv, Cx) or not isinstance(xv, (int, Fraction, Re)):
+                        raise Unsupported("min/max of a guarded list of non-real values")
+                    le = sym.le(m, xv) if is_min else sym.le(xv, m)
+                    ip.ctx.fact(sym.zbool(sym.Implies(g, le)))
+                    alts.append(sym.And(g, sym.eq(m, xv)))
+                ip.ctx.fact(sym.zbool(sym.Or(*alts)))
+                return m
             best, bk = items[0], kf(items[0])
             for x in items[1:]:
                 kx = kf(x)
